@@ -43,6 +43,7 @@ pub enum K {
     Rounds, // macro: several rounds of "everyone edits and commits, then everyone exchanges with everyone" (blocks with 3+ parents)
     Burst, // macro: a long run of successive small edits of the same objects (revision indices >= 10, >= 100)
     SameEdit,
+    PastStage, // macro: staged edits exported and discarded, time travel to an older head set, the export replayed and committed there (a block whose records build on revisions of a block that is not its ancestor), travel to the new heads, reload
     StaleStage, // macro: staged edits exported and discarded; a concurrent committed edit of the same objects arrives and is refreshed in; the export is replayed onto the moved-on state, then discarded again or committed
     Twins, // macro: the same content reached over two edits on one replica and one edit on another (equal-content leaves with different identifiers), resolved independently and differently on both, exchanged, edited again
     N,
@@ -105,6 +106,8 @@ pub fn profile_for(prop: &str, variant: u64) -> Profile {
             w[K::Trickle as usize] = 6;
             w[K::SameEdit as usize] = 2;
             w[K::Twins as usize] = 1;
+            w[K::PastStage as usize] = 1;
+            w[K::TravelRedo as usize] = 1;
             w[K::Partition as usize] = 2;
             w[K::Heal as usize] = 2;
             w[K::ReloadUntil as usize] = 2;
@@ -125,6 +128,8 @@ pub fn profile_for(prop: &str, variant: u64) -> Profile {
             w[K::Exchange as usize] = 3;
             // incremental refreshes also follow a time travel (blocks left ready-but-unapplied)
             w[K::ReloadUntil as usize] = 4;
+            w[K::TravelRedo as usize] = 3;
+            w[K::PastStage as usize] = 4;
             p.converge_end = 30;
         }
         "C03" => {
@@ -165,7 +170,13 @@ pub fn profile_for(prop: &str, variant: u64) -> Profile {
             w[K::StageRestore as usize] = 4;
             w[K::Unstage as usize] = 5;
             w[K::StaleStage as usize] = 3;
+            if prop == "C05" {
+                w[K::PastStage as usize] = 3;
+                w[K::TravelRedo as usize] = 2;
+                w[K::ReloadUntil as usize] = 2;
+            }
             if prop == "C19" {
+                w[K::RoundTrip as usize] = 5;
                 w[K::SameEdit as usize] = 8;
             }
             w[K::Diverge as usize] = 16;
@@ -196,6 +207,7 @@ pub fn profile_for(prop: &str, variant: u64) -> Profile {
             w[K::Twins as usize] = 2;
             w[K::Burst as usize] = 1;
             w[K::StaleStage as usize] = 2;
+            w[K::PastStage as usize] = 2;
             w[K::Restart as usize] = 4;
             w[K::TravelRedo as usize] = 3;
             w[K::StageSave as usize] = 2;
@@ -265,6 +277,7 @@ pub fn profile_for(prop: &str, variant: u64) -> Profile {
             p.name = "commit-graph";
             w[K::Rounds as usize] = 2;
             w[K::TravelRedo as usize] = 5;
+            w[K::PastStage as usize] = 3;
             w[K::ObjOp as usize] = 3;
             w[K::ReloadUntil as usize] = 4;
             w[K::Reload as usize] = 4;
@@ -275,6 +288,9 @@ pub fn profile_for(prop: &str, variant: u64) -> Profile {
             w[K::Rounds as usize] = 3;
             w[K::Echo as usize] = 8;
             w[K::ReloadUntil as usize] = 10;
+            w[K::TravelRedo as usize] = 4;
+            w[K::PastStage as usize] = 3;
+            w[K::ObjOp as usize] = 3;
             w[K::Reload as usize] = 6;
             p.len = (10, 50);
             p.converge_end = 20;
@@ -829,13 +845,13 @@ impl Gen {
                         1 => {
                             // the stage is exported, discarded and replayed
                             v.push(Op::StageSave { r, keep: false });
-                            v.push(Op::StageRestore { r });
+                            v.push(Op::StageRestore { r, older: false });
                         }
                         _ => {
                             // exported and discarded, something else happens in between, then replayed
                             v.push(Op::StageSave { r, keep: false });
                             v.push(Op::Refresh { r });
-                            v.push(Op::StageRestore { r });
+                            v.push(Op::StageRestore { r, older: false });
                         }
                     }
                     v.push(Op::Commit { r, info });
@@ -849,7 +865,7 @@ impl Gen {
                 }
             }
             x if x == K::StageSave as usize => vec![Op::StageSave { r, keep: self.rng.chance(1, 3) }],
-            x if x == K::StageRestore as usize => vec![Op::StageRestore { r }],
+            x if x == K::StageRestore as usize => vec![Op::StageRestore { r, older: false }],
             x if x == K::TravelRedo as usize => {
                 if w.replicas[r].time_travel {
                     vec![Op::Reload { r }]
@@ -871,6 +887,71 @@ impl Gen {
                     v.push(Op::Commit { r, info });
                     v.push(Op::ObjOp { r, kind: 0, id_sel: self.rng.next() as u32, fields: json!({"v": "after"}) });
                     v.push(Op::Commit { r, info: None });
+                    // ... and travel to the heads that last commit returned
+                    v.push(Op::ReloadUntil { r, sel: u32::MAX, of: r, extra: 0 });
+                    v.push(Op::Reload { r });
+                    v
+                }
+            }
+            x if x == K::PastStage as usize => {
+                if w.replicas[r].time_travel {
+                    vec![Op::Reload { r }]
+                } else {
+                    let mut v = vec![];
+                    if self.staging(w, r) {
+                        v.push(Op::Commit { r, info: None });
+                    }
+                    let d1 = self.next_doc(w, r);
+                    v.push(Op::Update { r, doc: d1.clone(), twice: false });
+                    if self.rng.chance(1, 3) {
+                        // two exports outstanding (autosave): an early one and a later one that extends it; in
+                        // the past the later one is replayed and committed, then the early one is replayed on
+                        // top and discarded
+                        v.push(Op::StageSave { r, keep: true });
+                        let committed_between = self.rng.chance(1, 2);
+                        if committed_between {
+                            // ... the early one is committed in the meantime, the later one builds on that commit
+                            v.push(Op::Commit { r, info: None });
+                        }
+                        let mut d2 = d1.clone();
+                        docgen::mutate(&mut self.rng, &cfg, &mut d2);
+                        if let Some(o) = d2.as_object_mut() {
+                            o.insert("n".to_string(), json!(self.rng.below(1000)));
+                        }
+                        v.push(Op::Update { r, doc: d2, twice: false });
+                        v.push(Op::StageSave { r, keep: false });
+                        v.push(Op::ReloadUntil { r, sel: if committed_between || self.rng.chance(1, 2) { u32::MAX - 1 } else { self.rng.next() as u32 }, of: r, extra: 0 });
+                        v.push(Op::StageRestore { r, older: false });
+                        v.push(Op::Commit { r, info: None });
+                        v.push(Op::StageRestore { r, older: true });
+                        v.push(Op::Unstage { r });
+                        v.push(Op::ReloadUntil { r, sel: u32::MAX, of: r, extra: 0 });
+                        v.push(Op::Reload { r });
+                        return v;
+                    }
+                    if self.rng.chance(1, 2) {
+                        // the staged work builds on a commit that the travel target does not contain
+                        v.push(Op::Commit { r, info: None });
+                        let mut d2 = d1.clone();
+                        docgen::mutate(&mut self.rng, &cfg, &mut d2);
+                        if let Some(o) = d2.as_object_mut() {
+                            o.insert("n".to_string(), json!(self.rng.below(1000)));
+                        }
+                        v.push(Op::Update { r, doc: d2, twice: false });
+                    }
+                    v.push(Op::StageSave { r, keep: false });
+                    v.push(Op::ReloadUntil { r, sel: if self.rng.chance(1, 2) { u32::MAX - 1 } else { self.rng.next() as u32 }, of: r, extra: 0 });
+                    v.push(Op::StageRestore { r, older: false });
+                    v.push(Op::Commit { r, info: None });
+                    if self.rng.chance(1, 2) {
+                        v.push(Op::ObjOp { r, kind: 0, id_sel: self.rng.next() as u32, fields: json!({"v": "branch"}) });
+                        v.push(Op::Commit { r, info: None });
+                    }
+                    v.push(Op::ReloadUntil { r, sel: u32::MAX, of: r, extra: 0 });
+                    if n > 1 && self.rng.chance(1, 2) {
+                        v.push(Op::Meld { r: other, from: r });
+                        v.push(Op::Refresh { r: other });
+                    }
                     v.push(Op::Reload { r });
                     v
                 }
@@ -909,7 +990,7 @@ impl Gen {
                     }
                     v.push(Op::StageSave { r, keep: false });
                     v.extend([Op::Update { r: other, doc: touch(&base, "theirs", i), twice: false }, Op::Commit { r: other, info: None }]);
-                    v.extend([Op::Meld { r, from: other }, Op::Refresh { r }, Op::StageRestore { r }]);
+                    v.extend([Op::Meld { r, from: other }, Op::Refresh { r }, Op::StageRestore { r, older: false }]);
                     match self.rng.below(3) {
                         0 => v.push(Op::Unstage { r }),
                         1 => v.extend([Op::StageRoundTrip { r }, Op::Unstage { r }]),
